@@ -65,6 +65,8 @@ var targets = []target{
 	{dir: ".", files: []string{"event.go"}, funcs: []string{"read"}, out: "Event", joins: true},
 	// the MessageWriter a provider is handed: Session over any response writer
 	{dir: ".", files: []string{"message.go", "message_fields.go", "session.go"}, funcs: []string{"Session.doUpgrade", "Session.Send", "Session.Flush"}, out: "Session", joins: true},
+	// the other construction routes of an ID / type: database/sql, encoding/json, text
+	{dir: ".", files: []string{"message.go", "message_fields.go"}, funcs: []string{"messageField.Scan", "messageField.UnmarshalJSON", "messageField.MarshalText"}, out: "FieldRoutes"},
 	// Server.Publish's topic defaulting
 	{dir: ".", files: []string{"server.go"}, funcs: []string{"getTopics"}, out: "Server"},
 	// the client's back-off controller (float64 as an abstract carrier, the PRNG as the list of its draws, the clock as a parameter)
@@ -298,6 +300,9 @@ func (t *tr) leanType(ty types.Type, at ast.Node) string {
 	case *types.Interface:
 		if ty.String() == "error" {
 			return "(Option String)"
+		}
+		if u.NumMethods() == 0 {
+			return "AnyV" // interface{}: nil, a []byte, a string, or a value of some other dynamic type (GoRT.AnyV)
 		}
 	}
 	die(t.pos(at), "type %s", ty)
@@ -682,6 +687,12 @@ func (t *tr) expr(e *em, x ast.Expr) string {
 			return n
 		}
 		if id, ok := v.Y.(*ast.Ident); ok && id.Name == "nil" && (v.Op == token.EQL || v.Op == token.NEQ) {
+			if iface, ok := t.info.Types[v.X].Type.Underlying().(*types.Interface); ok && iface.NumMethods() == 0 {
+				if v.Op == token.NEQ {
+					return "(!(anyIsNil " + t.expr(e, v.X) + "))"
+				}
+				return "(anyIsNil " + t.expr(e, v.X) + ")"
+			}
 			if _, isFn := t.info.Types[v.X].Type.Underlying().(*types.Signature); isFn {
 				if v.Op == token.NEQ {
 					return "(" + t.expr(e, v.X) + ").isSome"
@@ -927,6 +938,14 @@ func (t *tr) call(e *em, v *ast.CallExpr) string {
 		}
 		return t.expr(e, v.Args[0])
 	}
+	if t.isPkgFunc(v, "encoding/json", "Unmarshal") && len(v.Args) == 2 {
+		// json.Unmarshal(data, &s) into a string: what encoding/json decodes is a parameter of the translated function
+		dst := stripAddr(v.Args[1])
+		j := t.fresh("js")
+		e.line("let %s := jsonDecode %s", j, t.expr(e, v.Args[0]))
+		t.assignTo(e, dst, "("+j+".getD "+t.expr(e, dst)+")", false)
+		return "(if " + j + ".isSome then none else some \"json.Unmarshal\")"
+	}
 	if t.isTimeFunc(v, "Now") {
 		return "now" // the clock reading this call of the function was given
 	}
@@ -1054,6 +1073,11 @@ func (t *tr) call(e *em, v *ast.CallExpr) string {
 		// an error value is identified by its (format) text; wrapping is not modelled
 		if tv, ok := t.info.Types[v.Args[0]]; ok && tv.Value != nil && tv.Value.Kind() == constant.String {
 			for _, a := range v.Args[1:] {
+				if st, ok := a.(*ast.StarExpr); ok {
+					if _, isId := st.X.(*ast.Ident); isId {
+						continue // *p of a receiver / parameter that is a value here: nothing to check
+					}
+				}
 				_ = t.expr(e, a) // evaluated for its checks
 			}
 			return fmt.Sprintf("(some %q)", constant.StringVal(tv.Value))
@@ -1182,7 +1206,7 @@ func (t *tr) call(e *em, v *ast.CallExpr) string {
 					if !t.known[mname] {
 						die(t.pos(v), "call of %s (not translated)", name)
 					}
-					if t.recv == nil || types.ExprString(sel.X) != t.recv.Name() || t.hasWriterArg(v) {
+					if fs := t.sigs[mname]; t.recv == nil || types.ExprString(sel.X) != t.recv.Name() || t.hasWriterArg(v) || (fs != nil && !fs.recvIO) {
 						return t.genericCall(e, mname, sel.X, v)
 					}
 					return t.methodCall(e, mname, v)
@@ -1237,6 +1261,22 @@ func (t *tr) readsClock(body ast.Node) bool {
 }
 
 func (t *tr) isTimeFunc(c *ast.CallExpr, names ...string) bool {
+	return t.isPkgFunc(c, "time", names...)
+}
+
+// usesJSON: the body calls json.Unmarshal (its answer is a parameter of the translated function)
+func (t *tr) usesJSON(body ast.Node) bool {
+	found := false
+	ast.Inspect(body, func(x ast.Node) bool {
+		if c, ok := x.(*ast.CallExpr); ok && t.isPkgFunc(c, "encoding/json", "Unmarshal") {
+			found = true
+		}
+		return true
+	})
+	return found
+}
+
+func (t *tr) isPkgFunc(c *ast.CallExpr, path string, names ...string) bool {
 	sel, ok := c.Fun.(*ast.SelectorExpr)
 	if !ok {
 		return false
@@ -1246,7 +1286,7 @@ func (t *tr) isTimeFunc(c *ast.CallExpr, names ...string) bool {
 		return false
 	}
 	pn, ok := t.info.Uses[id].(*types.PkgName)
-	if !ok || pn.Imported().Path() != "time" {
+	if !ok || pn.Imported().Path() != path {
 		return false
 	}
 	for _, n := range names {
@@ -2299,6 +2339,65 @@ func (t *tr) stmts(e *em, list []ast.Stmt, up *kont, lc *loopCtx) {
 			t.stmts(e, []ast.Stmt{el}, k, lc)
 		}
 		e.ind--
+	case *ast.TypeSwitchStmt:
+		// switch v := x.(type) over an interface{}: the dynamic types []byte and string, and a default
+		if v.Init != nil {
+			die(t.pos(s), "type switch with an init statement")
+		}
+		as, ok := v.Assign.(*ast.AssignStmt)
+		if !ok || len(as.Rhs) != 1 {
+			die(t.pos(s), "type switch without a bound variable")
+		}
+		ta, ok := as.Rhs[0].(*ast.TypeAssertExpr)
+		if !ok {
+			die(t.pos(s), "type switch")
+		}
+		subj := t.expr(e, ta.X)
+		var tdef *ast.CaseClause
+		var tclauses []*ast.CaseClause
+		for _, c := range v.Body.List {
+			cc := c.(*ast.CaseClause)
+			if cc.List == nil {
+				tdef = cc
+			} else {
+				tclauses = append(tclauses, cc)
+			}
+		}
+		t.breakables = append(t.breakables, breakable{k: k})
+		defer func() { t.breakables = t.breakables[:len(t.breakables)-1] }()
+		tdepth := 0
+		for _, cc := range tclauses {
+			if len(cc.List) != 1 {
+				die(t.pos(cc), "type switch clause with several types")
+			}
+			var is, get string
+			switch t.leanType(t.info.Types[cc.List[0]].Type, cc) {
+			case "Bytes":
+				if _, isSl := t.info.Types[cc.List[0]].Type.Underlying().(*types.Slice); isSl {
+					is, get = "anyIsBytes", "anyBytes"
+				} else {
+					is, get = "anyIsStr", "anyStr"
+				}
+			default:
+				die(t.pos(cc), "type switch on %s", types.ExprString(cc.List[0]))
+			}
+			e.line("if (%s %s) then do", is, subj)
+			e.ind++
+			if iv, ok := t.info.Implicits[cc].(*types.Var); ok {
+				e.line("let %s : %s := %s %s", t.nameOf(iv), t.leanType(iv.Type(), cc), get, subj)
+			}
+			t.stmts(e, cc.Body, k, lc)
+			e.ind--
+			e.line("else do")
+			e.ind++
+			tdepth++
+		}
+		if tdef != nil {
+			t.stmts(e, tdef.Body, k, lc)
+		} else {
+			t.fall(e, k, lc)
+		}
+		e.ind -= tdepth
 	case *ast.SwitchStmt:
 		if v.Init != nil {
 			t.simple(e, v.Init)
@@ -3065,6 +3164,9 @@ func (t *tr) function(out *em, fd *ast.FuncDecl, leanName string) {
 		t.nowParam = true
 		params = append(params, "(now : Int)") // the clock reading of this call (time.Now / time.Since)
 	}
+	if t.usesJSON(fd.Body) {
+		params = append(params, "(jsonDecode : Bytes → Option Bytes)") // what json.Unmarshal(data, &string) decodes (none = an error)
+	}
 	if iterLit != nil {
 		tps += "{κ : Type} "
 	}
@@ -3363,7 +3465,7 @@ func main() {
 			files = append(files, af)
 		}
 		info := &types.Info{Types: map[ast.Expr]types.TypeAndValue{}, Defs: map[*ast.Ident]types.Object{},
-			Uses: map[*ast.Ident]types.Object{}, Selections: map[*ast.SelectorExpr]*types.Selection{}, Instances: map[*ast.Ident]types.Instance{}}
+			Uses: map[*ast.Ident]types.Object{}, Selections: map[*ast.SelectorExpr]*types.Selection{}, Instances: map[*ast.Ident]types.Instance{}, Implicits: map[ast.Node]types.Object{}}
 		conf := types.Config{Importer: chain{checked, importer.ForCompiler(fset, "source", nil)}, Error: func(error) {}} // a partial package: unresolved names elsewhere are not our concern
 		pkg, _ := conf.Check(tg.dir, fset, files, info)
 		checked["github.com/tmaxmax/go-sse/"+tg.dir] = pkg
